@@ -28,6 +28,8 @@ type Feat struct {
 	Callbacks      bool
 	Info           bool
 	LocPC          bool // LocationForPC on some declared constructors (C18: IDs are still per function)
+	DeepChains     bool // a share of the runs builds one long dependency path (tmplDeepChain)
+	LocPCDyn       bool // ... and on reflect-made ones, which all share one code address (C20: the Name is the one of the given location)
 	NamedSlice     bool
 	Wild           float64 // probability that a constructor ignores the rank discipline
 	PAvail         float64 // probability of picking an available dependency
@@ -377,6 +379,7 @@ func (g *genCtx) genCtor(s int) *Func {
 	f.Variadic = ft.Variadic && g.r.P(ft.PVariadic)
 	f.OptNoise = g.r.P(0.06)
 	f.Callback = f.Callback || (ft.Callbacks && g.r.P(0.5))
+	f.LocPC = ft.LocPC && ft.LocPCDyn && g.r.P(0.3)
 	return f
 }
 
@@ -1357,4 +1360,186 @@ func (g *genCtx) tmplGroupFailure() {
 		g.addOp(Op{Kind: OpVisualize, ErrFrom: len(g.h.Ops)})
 		return
 	}
+}
+
+// tmplDeepChain: a dependency path of many distinct constructors -- continued
+// through the child scopes of one branch, where keys of the outer levels may
+// be provided again -- whose bottom link fails (injected fault) or lacks a
+// dependency. The Invoke at the far end walks the whole path; the failure is
+// visualized and the Invoke retried (root cause and transitive failures, error
+// chains, rollback and retry on paths far longer than random registration
+// produces). Declared functions where the run uses the catalogue (the chain
+// links of chainSpecs), reflect-made ones otherwise.
+func (g *genCtx) tmplDeepChain() {
+	if g.ft.Catalog && len(catSpecs) == 0 {
+		return
+	}
+	s := 0
+	for x := range g.m.S {
+		if g.m.Depth(x) > g.m.Depth(s) {
+			s = x
+		}
+	}
+	path := g.m.Path(s) // s first, root last
+	want := g.r.Range(4, 22)
+	missing := g.r.P(0.3)
+	var chain []int
+	var last Key
+	for li := len(path) - 1; li >= 0 && len(chain) < want; li-- {
+		sc := path[li]
+		perLevel := g.r.Range(2, 9)
+		if li == 0 {
+			perLevel = want
+		}
+		for n := 0; n < perLevel && len(chain) < want; n++ {
+			var f *Func
+			if g.ft.Catalog {
+				idx := g.chainLink(sc, last, len(chain) > 0, missing && len(chain) == 0)
+				if idx < 0 {
+					break
+				}
+				f = g.fromCatalog(idx)
+			} else if f = g.dynLink(sc, last, len(chain) > 0, missing && len(chain) == 0); f == nil {
+				break
+			}
+			i := g.addOp(Op{Kind: OpProvide, Scope: sc, Fn: f.ID, Tag: "deep-chain"})
+			g.m.AddCtor(sc, i, f)
+			chain = append(chain, f.ID)
+			ks := singleKeys(f.LeafResults())
+			last = ks[g.r.Intn(len(ks))]
+		}
+	}
+	if len(chain) < 3 {
+		return
+	}
+	if !missing {
+		bad := chain[0]
+		if g.r.P(0.3) {
+			bad = chain[g.r.Intn(len(chain))]
+		}
+		to := -1
+		if g.r.P(0.4) {
+			to = 1 // transient: the retry below succeeds
+		}
+		g.h.Faults = append(g.h.Faults, Fault{Fn: bad, From: 0, To: to, Kind: FaultKind(g.r.Range(1, 3))})
+	}
+	inv := g.newFunc(RoleInv)
+	inv.Params = []Param{{Kind: PObj, Fields: []Param{{Kind: PSingle, T: last.T, Name: last.Name}}}}
+	g.addOp(Op{Kind: OpInvoke, Scope: s, Fn: inv.ID, Tag: "deep-chain"})
+	if g.ft.Catalog || g.r.P(0.3) {
+		g.addOp(Op{Kind: OpVisualize, ErrFrom: len(g.h.Ops)})
+	}
+	if g.r.P(0.5) {
+		g.retryInvoke(s, inv.ID)
+	}
+}
+
+// dynLink: a reflect-made constructor func(last) (k[, error]) for a single key
+// k that is still free in sc (bottom link: no parameter, or -- wantMissing --
+// one that nobody visible from sc provides).
+func (g *genCtx) dynLink(sc int, last Key, cont, wantMissing bool) *Func {
+	names := append([]string{""}, g.ft.Names...)
+	var free, absent []Key
+	for t := 0; t < g.ft.NT; t++ {
+		for _, n := range names {
+			k := Key{T: t, Name: n}
+			if len(g.m.S[sc].Prov[k]) == 0 && (!cont || k != last) {
+				free = append(free, k)
+			}
+			if len(g.m.AllProv(sc, k)) == 0 {
+				absent = append(absent, k)
+			}
+		}
+	}
+	single := func(k Key) Param {
+		p := Param{Kind: PSingle, T: k.T, Name: k.Name}
+		if k.Name != "" {
+			p = Param{Kind: PObj, Fields: []Param{p}}
+		}
+		return p
+	}
+	var params []Param
+	switch {
+	case cont:
+		params = []Param{single(last)}
+	case wantMissing:
+		if len(absent) < 2 {
+			return nil
+		}
+		params = []Param{single(absent[g.r.Intn(len(absent))])}
+	}
+	for _, i := range g.r.Perm(len(free)) {
+		k := free[i]
+		if len(params) > 0 && params[0].Kind == PSingle && params[0].T == k.T && params[0].Name == k.Name {
+			continue
+		}
+		r := Result{Kind: RSingle, T: k.T, Name: k.Name}
+		if k.Name != "" {
+			r = Result{Kind: RObj, Fields: []Result{r}}
+		}
+		tmp := Func{ID: -1, Cat: -1, Role: RoleCtor, Params: params, Results: []Result{r}}
+		if wantMissing && !cont {
+			if lp := tmp.LeafParams(); len(lp) == 1 && lp[0].Key == k {
+				continue
+			}
+		}
+		if g.m.PredictProvide(sc, &tmp) != PredOK {
+			continue
+		}
+		f := g.newFunc(RoleCtor)
+		f.Params, f.Results = params, []Result{r}
+		f.HasErr = g.r.P(0.6)
+		f.Callback = g.ft.Callbacks && g.r.P(0.3)
+		return f
+	}
+	return nil
+}
+
+// chainLink picks an unused declared constructor that can be registered in sc,
+// requires the key `last` (when cont) and otherwise only what is visible from
+// sc -- or, for the bottom link of a "missing" chain, lacks something.
+// Constructors whose only required dependency is `last` are preferred, so that
+// the failure the Invoke meets is the one at the bottom of the chain.
+func (g *genCtx) chainLink(sc int, last Key, cont, wantMissing bool) int {
+	second := -1
+	for _, idx := range g.r.Perm(catCtors + catChain) {
+		if idx >= catCtors {
+			idx += catDecs + catInvs // the chain links come behind the seeded ranges
+		}
+		spec := &catSpecs[idx]
+		if g.catUsed[idx] || spec.Export || len(singleKeys(spec.LeafResults())) == 0 {
+			continue
+		}
+		req, usesLast := 0, false
+		for _, p := range spec.LeafParams() {
+			if p.Key.IsGroup() || p.Opt {
+				continue
+			}
+			req++
+			if cont && p.Key == last {
+				usesLast = true
+			}
+		}
+		if cont && !usesLast {
+			continue
+		}
+		if wantMissing == g.depsVisible(sc, spec) {
+			continue
+		}
+		if !cont && !wantMissing && req > 1 {
+			continue
+		}
+		tmp := deepCopyFunc(spec)
+		tmp.ID, tmp.Cat = -1, idx
+		if g.m.PredictProvide(sc, &tmp) != PredOK {
+			continue
+		}
+		if req <= 1 {
+			return idx
+		}
+		if second < 0 {
+			second = idx
+		}
+	}
+	return second
 }
